@@ -27,6 +27,7 @@ pub trait ActionContext {
     fn llm_query(&self, prompt: String, model: &Model) -> String;
     fn default_model(&self) -> &Model;
     fn patch(&self) -> Graph;
+    fn has_key(&self, key: &Key) -> bool;
 }
 
 pub fn all_action_types(configuration: &Configuration) -> Vec<ActionEnum> {
@@ -535,6 +536,9 @@ impl ActionProvider for ReferenceInlineSection {
         let tree = context.collect(&key);
         Some(target_id)
             .filter(|target_id| tree.get(*target_id).is_reference())
+            // nothing to inline for a dangling reference, nowhere to put it outside a section
+            .filter(|target_id| context.has_key(&tree.reference_key(*target_id)))
+            .filter(|target_id| tree.get_surrounding_section_id(*target_id).is_some())
             .map(|_| Action {
                 title: "Inline section".to_string(),
                 identifier: self.identifier(),
@@ -586,6 +590,7 @@ impl ActionProvider for ReferenceInlineQuote {
         let tree = context.collect(&key);
         Some(target_id)
             .filter(|target_id| tree.get(*target_id).is_reference())
+            .filter(|target_id| context.has_key(&tree.reference_key(*target_id)))
             .map(|_| Action {
                 title: "Inline quote".to_string(),
                 identifier: self.identifier(),
